@@ -655,7 +655,6 @@ func (ex *Exec) typeAt(p *Place) types.Type {
 }
 
 func (ex *Exec) rootVal(st *State, p *Place) (string, types.Type) {
-	S := ex.eng.S
 	switch p.kind {
 	case pkCell:
 		v, ok := st.cells[p.alloc]
@@ -670,8 +669,7 @@ func (ex *Exec) rootVal(st *State, p *Place) (string, types.Type) {
 	case pkHeap:
 		return ex.vc.loadPtr(st, p.ref, p.root), p.root
 	case pkSlice:
-		sn := S.sortOf(p.slice.typ)
-		return fmt.Sprintf("(select (arr_%s %s) %s)", sn, p.slice.t, p.idx), p.slice.typ.Underlying().(*types.Slice).Elem()
+		return fmt.Sprintf("(select %s %s)", ex.vc.sliceArr(st, p.slice.typ, p.slice.t), p.idx), p.slice.typ.Underlying().(*types.Slice).Elem()
 	}
 	panic("rootVal")
 }
@@ -783,6 +781,17 @@ func (ex *Exec) store(fr *Frame, st *State, p *Place, v Val, pos token.Pos) {
 		}
 		vc.setHeap(st, key, sort, fmt.Sprintf("(store %s %s %s)", h, p.ref, nobj))
 	case pkSlice:
+		if sn := S.sortOf(p.slice.typ); S.handle[sn] {
+			// handle-based slice: true reference semantics through the slice heap
+			et := p.slice.typ.Underlying().(*types.Slice).Elem()
+			k, srt := S.sliceHeap(sn)
+			h := vc.heap(st, k, srt)
+			ref := fmt.Sprintf("(arr_%s %s)", sn, p.slice.t)
+			cur := fmt.Sprintf("(select (select %s %s) %s)", h, ref, p.idx)
+			inner := ex.updPath(S, cur, et, p.path, nv)
+			vc.setHeap(st, k, srt, fmt.Sprintf("(store %s %s (store (select %s %s) %s %s))", h, ref, h, ref, p.idx, inner))
+			return
+		}
 		// write-back through the place the slice header was loaded from (value semantics, A-APPEND)
 		if p.slice.origin == nil {
 			vc.droppedStores++
